@@ -1162,7 +1162,7 @@ def run(ck):
                                                                  "seed=%d" % rh.below(100000), "ops"] + ops)
                 hjobs.append((planner, pb, line, "clear" in ops))
         # a goal with an extra condition beyond its distance (speed-limited arrival of the double integrator): solve until an
-        # exact solution exists, the caller clears only the problem definition's paths, solve again (finding F160 for PDST)
+        # exact solution exists, the caller clears only the problem definition's paths, solve again (regression for F160, fixed by fc68fdba5)
         for rep in range(2 if quick else 6):
             pb = std_problem("dint", rh.choice([0, 2, 5]), "empty", "posv")
             pb.thr = 2.0
